@@ -63,6 +63,36 @@ def table_category(ctx):
     return out
 
 
+def _bisect_lookup(ctx, lb, w):
+    """lookup over a vector of (key, block) sorted by key: binary_search_by(|e| e.0.cmp(name)) -> Ok(i): blocks[i].1,
+    Err: Error::Syntax; or partition_point(|e| e.0 <= name), the last element before it accepted iff its key equals
+    the name."""
+    rows = [([strip_ver(g) for g in summarize(p)[0]], strip_ver(summarize(p)[1])) for p in w.paths]
+    cl = [c for c in ctx.f.bodies if c.path.startswith(lb.path + "::{closure")]
+    crets = set()
+    for c in cl:
+        for p in ctx.walk(c).paths:
+            crets.add(strip_ver(render(p.ret)))
+    BS = r"binary_search_by\(a1\.blocks, closure [^\[]*\[a2\]\)"
+    if crets <= {"cmp(String::as_str(a2.0), ^a2)", "cmp(a2.0, ^a2)", "Ord::cmp(String::as_str(a2.0), ^a2)"} and crets:
+        okr = [r for gs, r in rows if len(gs) == 1 and re.match(r"^variant\(%s\)=Ok$" % BS, gs[0]) and re.match(r"^Result::Ok\{0: a1\.blocks\[%s as Ok\.0\]\.1\}$" % BS, r)]
+        err = [r for gs, r in rows if len(gs) == 1 and re.match(r"^variant\(%s\)=Err$" % BS, gs[0]) and r.startswith("Result::Err{0: Error::syntax(")]
+        return len(rows) == 2 and len(okr) == 1 and len(err) == 1
+    PP = r"last\(a1\.blocks\[RangeTo::RangeTo\{end: partition_point\(a1\.blocks, closure [^\[]*\[a2\]\)\}\]\)"
+    if crets == {"!lt(^a2, String::as_str(a2.0))"}:
+        good = True
+        seen_ok = False
+        for gs, r in rows:
+            found = any(re.match(r"^eq\(a2, %s as Some\.0\.0\)$" % PP, g) for g in gs)
+            if found and any(re.match(r"^variant\(%s\)=Some$" % PP, g) for g in gs):
+                seen_ok = seen_ok or re.match(r"^Result::Ok\{0: %s as Some\.0\.1\}$" % PP, r) is not None
+                good = good and re.match(r"^Result::Ok\{0: %s as Some\.0\.1\}$" % PP, r) is not None
+            else:
+                good = good and r.startswith("Result::Err{0: Error::syntax(")
+        return good and seen_ok
+    return False
+
+
 def _none_becomes_syntax(ctx, caller, call):
     """in `caller`, every path on which `call` (a regular expression over the rendered call) answered None returns
     Err(Error::Syntax)"""
@@ -223,7 +253,18 @@ def block_key(ctx):
             out.append(bad("strip-set", "the lookup key must be block.name with ' ' (and at most '_') removed; found replace(%s, %s, %s)" % (show(args[0]), show(pat), show(repl)), b.loc(bb)))
         # the inserted key is the result of that replace and the value the same block
         ins = call_sites(b, lambda r: "HashMap" in r and r.endswith("::insert"))
-        if len(ins) == 1:
+        pushes = [s for s in call_sites(b, lambda r: r.endswith("::push") and "Vec" in r) if show(se.operand(s[1]["args"][1])).startswith("(")]
+        if not ins and len(pushes) == 1:
+            # the table kept as a vector of (key, block) pairs, sorted by key and searched by bisection
+            pa = se.operand(pushes[0][1]["args"][1])
+            items = pa[1] if pa[0] == "tuple" else ()
+            sorts = call_sites(b, lambda r: re.search(r"::(sort|sort_by|sort_unstable|sort_unstable_by|sort_by_key|sort_unstable_by_key|sort_by_cached_key)$", r) is not None)
+            pair_ok = len(items) == 2 and "replace(" in show(items[0]) and show(args[0]).startswith(show(items[1]))
+            if pair_ok and len(sorts) >= 1:
+                out.append(ok("insert-pair"))
+            else:
+                out.append(bad("insert-pair", "the (key, block) pairs must pair the stripped name of a block with that block, and the vector must be sorted before it is searched; pushes %s, sorts %d" % (show(pa)[:120], len(sorts)), b.loc(pushes[0][0])))
+        elif len(ins) == 1:
             ia = [se.operand(a) for a in ins[0][1]["args"]]
             if "replace(" in show(ia[1]) and show(args[0]).startswith(show(ia[2])):
                 out.append(ok("insert-pair"))
@@ -267,6 +308,8 @@ def block_key(ctx):
             out.append(ok("lookup"))
         elif vals == ["HashMap::get(a1.blocks, a2)"] and _none_becomes_syntax(ctx, "category::block", LOOKUP):
             out.append(ok("lookup"))  # the lookup answers Option, block() words the rejection
+        elif _bisect_lookup(ctx, lb, w):
+            out.append(ok("lookup"))  # bisection of the sorted (key, block) vector on the key
         else:
             out.append(bad("lookup", "lookup must return the block stored under the given name or Error::Syntax; found %s" % vals, lb.loc()))
     return out
